@@ -195,6 +195,15 @@ func checkC02(c *Ctx) {
 	c.Rule("C02-R19", "the same events in the same order: every send of a decoded event waits for room itself (blocking select, shutdown alternatives only); none is tried without blocking or handed to a goroutine, whose sends race the next scan's (= C05-R1)")
 	c.Expect("C02-R19", 1)
 	c.asRule("C05-R1", "C02-R19", func() { c05Sends(c, p) })
+	c.Rule("C02-R20", "with no escape timeout expiring in between: the collect loop gives up waiting only when its caller says the wait is over; the flag it tests is its parameter, never reassigned inside (by the amount buffered, by the clock)")
+	c.Expect("C02-R20", 1)
+	checkExpiryIsTheCallers(c, p, "C02-R20")
+	c.Rule("C02-R21", "any partition yields the same events: what the main loop appends to the decode buffer is the chunk as received from the reader (a per-chunk rewrite sees characters the read boundary cut in two)")
+	c.Expect("C02-R21", 1)
+	checkChunkBufferedAsRead(c, p, "C02-R21")
+	c.Rule("C02-R22", "a recognised sequence becomes its event whatever was decoded before it in the same scan: input a parser removes with the answer 'complete' was appended to the event list (two identical reports in one read are two events, as they are in two reads; = C05-R12)")
+	c.Expect("C02-R22", 6)
+	checkConsumedDelivers(c, p, "C02-R22", nil)
 	c.Rule("C02-R17", "a pending Alt prefix outlives the scan that found it: the flag is a field of the screen, cleared only where it is applied to a key (a scan that ends waiting for more input must not forget it: ESC ESC | [ A is Alt+Up however it is chunked; = C03-R6)")
 	c.Expect("C02-R17", 3)
 	c.asRule("C03-R6", "C02-R17", func() { c03AltPrefix(c, p) })
